@@ -133,9 +133,12 @@ static void check_one(Ctx &ctx, const Val &tree, json_object *j, int flags)
 	}
 }
 
-static void check_tree(Ctx &ctx, const Val &tree, const std::vector<int> &flagsets)
+static void check_tree(Ctx &ctx, const Val &tree, const std::vector<int> &flagsets, int str_mode = 0)
 {
+	// string nodes may have reached their contents through set_string_len (separately allocated or oversized storage)
+	build_str_mode() = str_mode;
 	json_object *j = build(tree);
+	build_str_mode() = 0;
 	for (int f : flagsets)
 		check_one(ctx, tree, j, f);
 	// serialising must not have changed the tree
@@ -241,7 +244,10 @@ void run_case(Choices &c, Ctx &ctx)
 	for (int f : fs)
 		fl += flagname(f) + " ";
 	ctx.note("tree=" + show(tree, 800) + "\nflags: " + (fs.size() == 64 ? "all 64" : fl));
-	check_tree(ctx, tree, fs);
+	int str_mode = (int)c.pickn(3);
+	if (str_mode)
+		ctx.label("strings_with_set_history");
+	check_tree(ctx, tree, fs, str_mode);
 	if (g.f_double || g.f_escape || tree.nesting() >= 2)
 		ctx.nontrivial(hash_val(tree, hash_u64(fs[0] * 64 + fs[1])));
 	leak.check(ctx);
